@@ -86,14 +86,18 @@ func Path(n int) *DenseGraph {
 	}
 
 	degrees := make([]int, n)
-	if n > 0 {
+	if n > 1 {
 		degrees[0] = 1
 		degrees[n-1] = 1
 		for i := 1; i < n-1; i++ {
 			degrees[i] = 2
 		}
 	}
-	return &DenseGraph{NumberOfVertices: n, NumberOfEdges: n - 1, DegreeSequence: degrees, Edges: edges}
+	m := n - 1
+	if n == 0 {
+		m = 0
+	}
+	return &DenseGraph{NumberOfVertices: n, NumberOfEdges: m, DegreeSequence: degrees, Edges: edges}
 }
 
 //Cycle returns a copy of the cycle on n vertices.
@@ -126,7 +130,11 @@ func Star(n int) *DenseGraph {
 		}
 	}
 
-	return &DenseGraph{NumberOfVertices: n, NumberOfEdges: n - 1, DegreeSequence: degrees, Edges: edges}
+	m := n - 1
+	if n == 0 {
+		m = 0
+	}
+	return &DenseGraph{NumberOfVertices: n, NumberOfEdges: m, DegreeSequence: degrees, Edges: edges}
 }
 
 //RookGraph returns the n x m Rook graph i.e. the graph representing the moves of a rook on an n x m chessboard.
